@@ -27,12 +27,14 @@ pub struct El {
 const LITS: &[&str] = &[
     "\"s\"", "r\"raw\"", "r#\"ra\"w\"#", "b\"bytes\"", "b'x'", "'c'", "5", "5u8", "0xff_u16", "1.5", "1e3f64", "true", "false",
     "c\"cstr\"", "\"\"", "'\\n'", "340282366920938463463374607431768211456", "-5", "-1.5", "-0x1f",
+    // strings whose text reads like a value of another kind: still strings, routed by form
+    "\"true\"", "\"false\"", "r\"true\"", "\"5\"", "\"c\"", "\"1.5\"", "\"a::b\"", "\"[1, 2]\"",
 ];
 const PATHS: &[&str] = &[
     "a", "b", "lorem", "a::b", "::a", "::a::b::c", "r#type", "self", "Self", "super", "crate", "crate::x", "self::y", "super::super::z", "r#fn::k",
 ];
 const EXPRS: &[&str] = &[
-    "1", "-5", "-1.5", "\"v\"", "true", "x", "a::b", "x + 1", "f(1, 2)", "[1, 2, 3]", "(1, 2)", "|x, y| x", "|| 3", "x::<A, B>()", "if c { 1 } else { 2 }",
+    "1", "-5", "-1.5", "\"v\"", "\"true\"", "\"false\"", "true", "x", "a::b", "x + 1", "f(1, 2)", "[1, 2, 3]", "(1, 2)", "|x, y| x", "|| 3", "x::<A, B>()", "if c { 1 } else { 2 }",
     "S { x: 1, y: 2 }", "m!(a, b; c)", "1..", "..=5", "&x", "x.y(z, w)", "{ let q = 1; q }", "x as u8", "b'x'", "x = y", "match v { _ => 1, }",
     "<T as Tr<A, B>>::C", "!x", "x?.y", "a < b", "[0u8; 4]", "move |a: u8, b: u8| -> u8 { a + b }",
 ];
@@ -310,6 +312,11 @@ pub const FORMS: &[Form] = &[
     Form { src: "p[x, y]", chain: &["list:2"], default_msg: "Unexpected meta-item format `list`", is_lit: false },
     Form { src: "p = true", chain: &["expr", "value", "bool"], default_msg: "Unexpected type `bool`", is_lit: true },
     Form { src: "p = \"s\"", chain: &["expr", "value", "string"], default_msg: "Unexpected type `string`", is_lit: true },
+    // a string is a string whatever its text reads like: routed by form, never by content
+    Form { src: "p = \"true\"", chain: &["expr", "value", "string"], default_msg: "Unexpected type `string`", is_lit: true },
+    Form { src: "p = r\"false\"", chain: &["expr", "value", "string"], default_msg: "Unexpected type `string`", is_lit: true },
+    Form { src: "p = \"5\"", chain: &["expr", "value", "string"], default_msg: "Unexpected type `string`", is_lit: true },
+    Form { src: "p = \"c\"", chain: &["expr", "value", "string"], default_msg: "Unexpected type `string`", is_lit: true },
     Form { src: "p = 'c'", chain: &["expr", "value", "char"], default_msg: "Unexpected type `char`", is_lit: true },
     Form { src: "p = 5", chain: &["expr", "value"], default_msg: "Unexpected type `int`", is_lit: true },
     Form { src: "p = 1.5", chain: &["expr", "value"], default_msg: "Unexpected type `float`", is_lit: true },
@@ -498,7 +505,7 @@ pub fn run(args: &Args) -> bool {
     }
     if want("routing") {
         let ctx = Ctx::new("C15", "routing", vmodel::ev::mix_seed(args.seed, "C15", "routing", args.shard), args);
-        ctx.set_rule("part b: all 128 override patterns of a probe FromMeta implementer x 15 item forms (word, 3 lists, 7 literal kinds, 4 non-literal expressions) x plain / invisible group (in the token stream, and 1-3 Expr::Group layers built as syntax-tree nodes) x hook outcome (ok, unspanned error, error with own span) x from_meta / from_nested_meta (literals also in nested-literal position): exactly the most general overridden hook on the documented chain is called once, otherwise the documented default error; errors come back spanned inside the item unless the hook attached its own span. Exhaustive.");
+        ctx.set_rule("part b: all 128 override patterns of a probe FromMeta implementer x 19 item forms (word, 3 lists, 7 literal kinds, 4 strings whose text reads like a boolean / number / character, 4 non-literal expressions) x plain / invisible group (in the token stream, and 1-3 Expr::Group layers built as syntax-tree nodes) x hook outcome (ok, unspanned error, error with own span) x from_meta / from_nested_meta (literals also in nested-literal position): exactly the most general overridden hook on the documented chain is called once, otherwise the documented default error; errors come back spanned inside the item unless the hook attached its own span. Exhaustive.");
         if let Some((_, case)) = &replay {
             let r: Route = serde_json::from_value(case.clone()).expect("bad replay");
             ok &= run_list(&ctx, vec![r], check_route);
